@@ -348,6 +348,13 @@ func (v *objectBase) Get(key string) Amf0 {
 	return nil
 }
 
+func (v *objectBase) length() int {
+	v.lock.Lock()
+	defer v.lock.Unlock()
+
+	return len(v.properties)
+}
+
 func (v *objectBase) Set(key string, value Amf0) *objectBase {
 	v.lock.Lock()
 	defer v.lock.Unlock()
@@ -638,7 +645,8 @@ func (v *StrictArray) MarshalBinary() (data []byte, err error) {
 		return nil, oe.Wrap(err, "marshal")
 	}
 
-	if err = binary.Write(b, binary.BigEndian, v.count); err != nil {
+	// The count is the number of elements, which may be changed by Set.
+	if err = binary.Write(b, binary.BigEndian, uint32(v.length())); err != nil {
 		return nil, oe.Wrap(err, "marshal")
 	}
 
